@@ -15,6 +15,8 @@ SHAPES = {
     "z0": dict(ps=[], asy=False), "z1": dict(ps=[("a", "i64", "11")], asy=False), "z2": dict(ps=[("a", "i64", "11"), ("b", "i64", "12")], asy=False),
     # like z2, but trait and impl blocks are stamped out by macro_rules; the parameters are spelled identically (hygiene)
     "zh": dict(ps=[("$p", "i64", "11"), ("a", "i64", "12")], asy=False, stamped=True),
+    # a provided method (default body, `where Self: Sized`): Impl<T> must still reach the selected block
+    "zp": dict(ps=[("a", "i64", "11")], asy=False, provided=True),
     "zs": dict(ps=[("s", "&str", '"s11"'), ("n", "i64", "12")], asy=False),
     "zb": dict(ps=[("s", "&'x str", '"s11"')], asy=False, borrowed=True),
     # the same with the named lifetime on the receiver / deps reference as well
@@ -26,7 +28,10 @@ SHAPES = {
 }
 ORDER = list(SHAPES)
 BOUNDS = {"b0": [[], []], "b1": [["Dep1"], ["Dep1"]], "b2": [["Dep1", "Dep2"], ["Dep1", "Dep2"]],
-          "b12": [["Dep1"], ["Dep1", "Dep2"]], "b21": [["Dep2", "Dep1"], ["Dep1"]], "b1x2": [["Dep1"], ["Dep2"]]}
+          "b12": [["Dep1"], ["Dep1", "Dep2"]], "b21": [["Dep2", "Dep1"], ["Dep1"]], "b1x2": [["Dep1"], ["Dep2"]],
+          # two instantiations of ONE generic dependency trait (a bound is its whole path, generic arguments included)
+          "bg": [["Dep3<u8>"], ["Dep3<u16>"]], "bgg": [["Dep3<u8>", "Dep3<u16>"], ["Dep3<u8>"]]}
+DEPCALL = {"Dep1": ("deps.dep1()", "5"), "Dep2": ("deps.dep2()", "6"), "Dep3<u8>": ("Dep3::<u8>::dep3(deps)", "8"), "Dep3<u16>": ("Dep3::<u16>::dep3(deps)", "16")}
 
 
 def enumerate_states(tier):
@@ -35,8 +40,10 @@ def enumerate_states(tier):
     states = []
     for w in words:
         for sel in ("static", "dyn"):
+            if sel == "dyn" and any(SHAPES[x].get("provided") for x in w):
+                continue   # `where Self: Sized` methods cannot be invoked on a trait object: outside dyn delegation
             for b in BOUNDS:
-                if len(w) == 1 and b in ("b12", "b21", "b1x2"):
+                if len(w) == 1 and b in ("b12", "b21", "b1x2", "bg"):
                     continue
                 if tier != "thorough" and len(w) == 2 and b == "b2" and sel == "dyn":
                     continue
@@ -55,6 +62,8 @@ def trait_method(x, i):
         return "fn m%d<'x>(&%sself, %s) -> &'x str;" % (i, "'x " if d.get("recv_lt") else "", ", ".join("%s: %s" % (p[0], p[1]) for p in d["ps"]))
     if d.get("from_deps"):
         return "fn m%d(&self) -> &str;" % i
+    if d.get("provided"):
+        return "fn m%d(&self, a: i64) -> String where Self: Sized { ::std::format!(\"default{}\", a) }" % i
     ps = "".join(", %s: %s" % (p[0], p[1]) for p in d["ps"])
     return "%sfn m%d(&self%s) -> String;" % ("async " if d["asy"] else "", i, ps)
 
@@ -65,7 +74,7 @@ def impl_fn(s, x, i, target):
     dep_ty = "&(impl %s)" % " + ".join(bs) if bs else "&impl ::core::any::Any"
     shows = [p[0] for p in d["ps"]]
     ev = "rt::ev(%s);" % gen.fmt_call("%s.m%d" % (target, i), ['format!("{:x}", rt::addr(deps))', "rt::tn(deps)"] + shows)
-    depvals = ["deps.%s()" % b.lower() for b in bs]
+    depvals = [DEPCALL[b][0] for b in bs]
     if d.get("borrowed"):
         ps = ", ".join("%s: %s" % (p[0], p[1]) for p in d["ps"])
         dep_ty_b = dep_ty.replace("&", "&'x ", 1) if d.get("recv_lt") else dep_ty
@@ -86,7 +95,9 @@ def render(s):
     L = ["mod %s {" % key, "    use super::rt;",
          # further dependencies of Impl<T>: implemented for the two applications only (not blanket), so that a bound
          # missing from the generated where-clause cannot be satisfied by accident
-         "    pub trait Dep1 { fn dep1(&self) -> i64; } pub trait Dep2 { fn dep2(&self) -> i64; }",
+         "    pub trait Dep1 { fn dep1(&self) -> i64; } pub trait Dep2 { fn dep2(&self) -> i64; } pub trait Dep3<T> { fn dep3(&self) -> i64; }",
+         "    impl Dep3<u8> for ::entrait::Impl<AppA> { fn dep3(&self) -> i64 { 8 } } impl Dep3<u8> for ::entrait::Impl<AppB> { fn dep3(&self) -> i64 { 8 } }",
+         "    impl Dep3<u16> for ::entrait::Impl<AppA> { fn dep3(&self) -> i64 { 16 } } impl Dep3<u16> for ::entrait::Impl<AppB> { fn dep3(&self) -> i64 { 16 } }",
          "    impl Dep1 for ::entrait::Impl<AppA> { fn dep1(&self) -> i64 { 5 } } impl Dep1 for ::entrait::Impl<AppB> { fn dep1(&self) -> i64 { 5 } }",
          "    impl Dep2 for ::entrait::Impl<AppA> { fn dep2(&self) -> i64 { 6 } } impl Dep2 for ::entrait::Impl<AppB> { fn dep2(&self) -> i64 { 6 } }"]
     stamped = any(SHAPES[x].get("stamped") for x in w)
@@ -139,7 +150,7 @@ def model(s):
         for i, x in enumerate(s["word"]):
             d = SHAPES[x]
             shown = [{"11": "11", "12": "12", '"s11"': "s11"}[p[2]] for p in d["ps"]]
-            deps = [{"Dep1": "5", "Dep2": "6"}[b] for b in bounds_of(s, i)]
+            deps = [DEPCALL[b][1] for b in bounds_of(s, i)]
             res = "s11" if d.get("borrowed") else "<typename>" if d.get("from_deps") else "|".join(["%s.m%d" % (t, i)] + shown + deps)
             exp["%s_m%d" % (app, i)] = dict(target=t, method=i, args=shown, result=res, app=app)
     return exp
